@@ -73,45 +73,48 @@ def parseEpStr (s : String) : Option Ep :=
     if v == "4" then pure ⟨.v4, a, b, sp, dp⟩ else if v == "6" then pure ⟨.v6, a, b, sp, dp⟩ else none
   | _ => none
 
-/-- `C18.pair <framing> <n> <f1> <f2> => t=<a>,<b> h=<a>,<b> l=<a>,<b> e1=<ep|-> e2=<ep|->` -/
-def pairOp (impl : String) : P Verdict := do
+inductive Hasher | tcp | http | tls
+  deriving DecidableEq
+
+/-- `C18.pt|ph|pl <framing> <n> <f1> <f2> => w=<a>,<b> e1=<ep|-> e2=<ep|->` -/
+def pairOp (hs : Hasher) (impl : String) : P Verdict := do
   let fr ← pFraming
   let n ← nat
   let p₁ ← bytes
   let p₂ ← bytes
-  let model := s!"t={wT n p₁},{wT n p₂} h={wH n p₁},{wH n p₂} l={wL n p₁},{wL n p₂} " ++
+  let w (p : Bytes) : String := match hs with | .tcp => wT n p | .http => wH n p | .tls => wL n p
+  let model := s!"w={w p₁},{w p₂} " ++
     s!"e1={optEp (analyzerEndpoints .http p₁)} e2={optEp (analyzerEndpoints .http p₂)}"
-  let (t₁, t₂) := pairOf (field impl "t")
-  let (h₁, h₂) := pairOf (field impl "h")
-  let (l₁, l₂) := pairOf (field impl "l")
-  let valid := [t₁, t₂, h₁, h₂, l₁, l₂].all (validIdx n)
+  let (w₁, w₂) := pairOf (field impl "w")
+  let valid := validIdx n w₁ && validIdx n w₂
   -- identities: (A) what the analyzers see — taken from the implementation's own report e1/e2;
   --             (B) the endpoints of the well-formed frame of the declared link type
   let idA := (parseEpStr (field impl "e1"), parseEpStr (field impl "e2"))
   let idB := (wireEndpoints fr p₁, wireEndpoints fr p₂)
-  let claim (ids : Option Ep × Option Ep) : Bool × Bool × Bool :=   -- (tcp, http, tls) obligations hold
+  let related (a b : Ep) : Bool := match hs with
+    | .tcp => a.ver == b.ver && a.src == b.src
+    | .http => decide (SameConn a b)
+    | .tls => a == b
+  let claim (ids : Option Ep × Option Ep) : Bool :=
     match ids with
-    | (some a, some b) =>
-      ( !(a.ver == b.ver && a.src == b.src) || t₁ == t₂,
-        !(decide (SameConn a b)) || h₁ == h₂,
-        !(a == b) || l₁ == l₂ )
-    | _ => (true, true, true)
-  let (ta, ha, la) := claim idA
-  let (tb, hb, lb) := claim idB
-  let ok := valid && ta && ha && la && tb && hb && lb
+    | (some a, some b) => !(related a b) || w₁ == w₂
+    | _ => true
+  let okA := claim idA
+  let okB := claim idB
+  let ok := valid && okA && okB
   let rel (ids : Option Ep × Option Ep) : String :=
     match ids with
     | (some a, some b) => if a == b then "same" else if a == b.swap then "rev" else
         if a.ver == b.ver && a.src == b.src then "src" else "other"
     | _ => "na"
-  -- which classes could excuse a failing obligation
-  let portsFail := !(ha && la && hb && lb)
-  let kf := if ok then [] else ((kfNames fr p₁ portsFail) ++ (kfNames fr p₂ portsFail)).eraseDups
-  let tag := s!"pair:{seenTag p₁}:A-{rel idA}:B-{rel idB}:" ++ hashTag p₁
+  let ports := hs != .tcp
+  let kf := if ok then [] else ((kfNames fr p₁ ports) ++ (kfNames fr p₂ ports)).eraseDups
+  let hn := match hs with | .tcp => "t" | .http => "h" | .tls => "l"
+  let tag := s!"pair-{hn}:{seenTag p₁}:A-{rel idA}:B-{rel idB}:" ++ hashTag p₁
   pure { modelEq := impl == model, specOk := some ok, kf := kf, tag := tag, model := model,
-         spec := s!"valid={valid} seen=({ta},{ha},{la}) wire=({tb},{hb},{lb})" }
+         spec := s!"valid={valid} seen={okA} wire={okB}" }
 
 def handlers : List (String × (String → P Verdict)) :=
-  [("C18.w", wOp), ("C18.pair", pairOp)]
+  [("C18.w", wOp), ("C18.pt", pairOp .tcp), ("C18.ph", pairOp .http), ("C18.pl", pairOp .tls)]
 
 end Huginn.Drv.C18
